@@ -18,12 +18,13 @@ import (
 
 type c18Case struct {
 	Size       int64
-	ReadyPoll  int // instances become ready on this poll (1..4); -1 never (deadline)
-	AttachFail int // k-th AttachInstances call fails (0 = none)
-	TermFail   int // j-th TerminateInstances call fails (0 = none)
-	StatusFail int // k-th status poll fails (0 = none)
-	PriorFails int // consecutive failed provisionings before this one (exit after the third)
+	ReadyPoll  int  // instances become ready on this poll (1..4); -1 never (deadline)
+	AttachFail int  // k-th AttachInstances call fails (0 = none)
+	TermFail   int  // j-th TerminateInstances call fails (0 = none)
+	StatusFail int  // k-th status poll fails (0 = none)
+	PriorFails int  // consecutive failed provisionings before this one (exit after the third)
 	HalfNever  bool // every other instance never becomes ready (the others are running from ReadyPoll on)
+	Split      int  // the CreateFleet answer lists the instances in this many entries of the same instance type (0 = 1)
 }
 
 func c18Run(p c18Case) (entries []sim.Entry, err error, exit bool, pan any, setup error) {
@@ -34,6 +35,9 @@ func c18Run(p c18Case) (entries []sim.Entry, err error, exit bool, pan any, setu
 	}
 	env.W.ReadyFromPoll = p.ReadyPoll
 	env.W.ReadyHalfNever = p.HalfNever
+	if p.Split > 0 {
+		env.W.FleetSplit = p.Split
+	}
 	// earlier failed provisionings (never ready) to exercise the consecutive-failure counter
 	for i := 0; i < p.PriorFails; i++ {
 		env.W.ReadyFromPoll = -1
@@ -135,6 +139,12 @@ func c18Grid(t *testing.T, tier string, shard, shards int, c *h.Collector) {
 			}
 			for sf := 1; sf <= 3; sf++ {
 				run(c18Case{Size: n, ReadyPoll: 1, StatusFail: sf})
+			}
+			// the answer split over several entries (capacity from several subnets / pools)
+			for _, split := range []int{2, 3} {
+				run(c18Case{Size: n, ReadyPoll: 1, Split: split})
+				run(c18Case{Size: n, ReadyPoll: -1, Split: split})
+				run(c18Case{Size: n, ReadyPoll: 1, Split: split, AttachFail: 1})
 			}
 			for _, rp := range []int{1, 3} {
 				run(c18Case{Size: n, ReadyPoll: rp, HalfNever: true})
